@@ -180,14 +180,16 @@ def sampler_roundtrip(H, case):
     H.cover("reached")
 
 
-@contract("sampler_record_layout", ["C16", "C03"], targets=_T[1:2] + _T[14:16])
-def sampler_record_layout(H, _):
+@contract("sampler_record_layout", ["C16", "C03"], targets=_T[1:2] + _T[14:16],
+          cases=lambda tier: [("default_envelopes", {}), ("long_envelopes", {"volume": 13, "panning": 14}), ("short_envelopes", {"volume": 0, "panning": 1})])
+def sampler_record_layout(H, points):
     """The instrument record (CHNM 0) has the documented layout: 400 bytes, sample count at 0x1c,
     legacy note map at 0x24, vibrato block at 0xee, 'PMAS' at 0xfc, version at 0x100, the 119-entry
     note map at 0x104 followed by 9 reserved zero bytes, then max_version / editor cursor / editor
     selection as three little-endian int32 at 0x184."""
-    s = build_sampler(H, {"samples": {4: (F8, MONO, OFF, 1)}})
+    s = build_sampler(H, {"samples": {4: (F8, MONO, OFF, 1)}, "points": points})
     chunks = list(H.call(s.global_config_chunks))
+    H.check("record_size_independent_of_envelope_length", len(chunks[1][1]) == len(list(Sampler().global_config_chunks())[1][1]))
     H.check("chnm_0", chunks[0][0] == b"CHNM" and F.dec_u32(chunks[0][1]) == 0 and chunks[1][0] == b"CHDT")
     rec = chunks[1][1]
     O = F.SAMPLER_OFFSETS
